@@ -43,7 +43,7 @@ Shapes ==
     [Plain("call") EXCEPT !.tt = "lab", !.tn = "A"],
     [Plain("push") EXCEPT !.b = 5],
     [Plain("fill") EXCEPT !.c = -1],
-    [Plain("blkw") EXCEPT !.c = 2], [Plain("blkw") EXCEPT !.c = 300],
+    [Plain("blkw") EXCEPT !.c = 2], [Plain("blkw") EXCEPT !.c = 300], [Plain("blkw") EXCEPT !.c = 0],
     [Plain("stringz") EXCEPT !.s = << 104, 105 >>] }
 LabelChoices == { << >>, << "A" >>, << "B" >>, << "a" >> }
 CoreShapes ==
@@ -54,22 +54,22 @@ CoreShapes ==
     [Plain("br") EXCEPT !.c = 5, !.tt = "lab", !.tn = "A"],
     [Plain("br") EXCEPT !.c = 7, !.tt = "lit", !.tv = -2],
     [Plain("jsr") EXCEPT !.tt = "lab", !.tn = "B"],
-    [Plain("blkw") EXCEPT !.c = 2], [Plain("blkw") EXCEPT !.c = 256],
+    [Plain("blkw") EXCEPT !.c = 2], [Plain("blkw") EXCEPT !.c = 256], [Plain("blkw") EXCEPT !.c = 0],
     [Plain("stringz") EXCEPT !.s = << 104 >>] }
 Items == IF CORE
          THEN { [sh EXCEPT !.labs = ls] : sh \in CoreShapes, ls \in { << >>, << "A" >>, << "B" >> } }
          ELSE { [sh EXCEPT !.labs = ls] : sh \in Shapes, ls \in LabelChoices }
 
-VARIABLES ast, phase, pos, line, symtab, origv, bps, air, image, steps
-vars == << ast, phase, pos, line, symtab, origv, bps, air, image, steps >>
+VARIABLES ast, phase, pos, line, symtab, origv, bps, air, image, steps, pendingLab
+vars == << ast, phase, pos, line, symtab, origv, bps, air, image, steps, pendingLab >>
 
 Programs == UNION { [1 .. n -> Items] : n \in 1 .. N }
 
 Init == /\ ast \in Programs
         /\ phase = "parse" /\ pos = 1 /\ line = 1
-        /\ symtab = << >> /\ origv = -1 /\ bps = {} /\ air = << >> /\ image = << >> /\ steps = 0
+        /\ symtab = << >> /\ origv = -1 /\ bps = {} /\ air = << >> /\ image = << >> /\ steps = 0 /\ pendingLab = FALSE
 
-Fail == /\ phase' = "err" /\ UNCHANGED << ast, pos, line, symtab, origv, bps, air, image >>
+Fail == /\ phase' = "err" /\ UNCHANGED << ast, pos, line, symtab, origv, bps, air, image, pendingLab >>
         /\ steps' = steps + 1
 
 (* one word of AIR: the item that produced it, its line, and the state of its label reference *)
@@ -88,12 +88,14 @@ ParseLitOk(it) ==
 ParseStep ==
   /\ phase = "parse"
   /\ IF pos > Len(ast) THEN
-        /\ phase' = "backpatch" /\ pos' = 1 /\ steps' = steps + 1
-        /\ UNCHANGED << ast, line, symtab, origv, bps, air, image >>
+        IF pendingLab THEN Fail       \* a label with nothing after it
+        ELSE /\ phase' = "backpatch" /\ pos' = 1 /\ steps' = steps + 1
+             /\ UNCHANGED << ast, line, symtab, origv, bps, air, image, pendingLab >>
      ELSE
        LET it   == ast[pos]
-           dup  == Len(it.labs) = 1 /\ it.labs[1] \in DOMAIN symtab
-           sym1 == IF Len(it.labs) = 1 /\ ~dup
+           hasL == Len(it.labs) = 1
+           dup  == hasL /\ it.labs[1] \in DOMAIN symtab
+           sym1 == IF hasL /\ ~dup
                    THEN [n \in (DOMAIN symtab) \cup {it.labs[1]} |->
                            IF n = it.labs[1] THEN line ELSE symtab[n]]
                    ELSE symtab
@@ -104,38 +106,42 @@ ParseStep ==
                    ELSE Ref(0)
            words == IF it.k = "stringz" THEN Len(it.s) + 1 ELSE IF it.k = "blkw" THEN it.c ELSE 1
        IN
-       IF Len(it.labs) > 1 \/ dup THEN Fail
+       (* two labels in a row (the first one possibly left over from a `.blkw 0`, which has no token) *)
+       IF Len(it.labs) > 1 \/ dup \/ (hasL /\ pendingLab) THEN Fail
        ELSE IF it.k = "end" THEN
-            IF Len(it.labs) = 1 THEN Fail
+            IF hasL \/ pendingLab THEN Fail
             ELSE /\ phase' = "backpatch" /\ pos' = 1 /\ steps' = steps + 1
-                 /\ UNCHANGED << ast, line, symtab, origv, bps, air, image >>
+                 /\ UNCHANGED << ast, line, symtab, origv, bps, air, image, pendingLab >>
        ELSE IF it.k = "orig" THEN
             IF origv # -1 \/ ~UnsOk(it.c, 16) THEN Fail
             ELSE /\ origv' = AsWord(it.c) /\ symtab' = sym1 /\ pos' = pos + 1 /\ steps' = steps + 1
+                 /\ pendingLab' = FALSE
                  /\ UNCHANGED << ast, phase, line, bps, air, image >>
        ELSE IF it.k = "break" THEN
             /\ bps' = bps \cup {Len(air)} /\ symtab' = sym1 /\ pos' = pos + 1 /\ steps' = steps + 1
+            /\ pendingLab' = FALSE
             /\ UNCHANGED << ast, phase, line, origv, air, image >>
        ELSE IF (it.k \in StackKinds /\ ~STACK) \/ ~ParseLitOk(it)
                  \/ (it.k = "fill" /\ ~LitOk(it.c)) THEN Fail
        ELSE /\ air' = air \o [j \in 1 .. words |-> Air(it, line + j - 1, ref, j)]
             /\ line' = line + words /\ symtab' = sym1 /\ pos' = pos + 1 /\ steps' = steps + 1
+            /\ pendingLab' = IF words = 0 THEN (pendingLab \/ hasL) ELSE FALSE
             /\ UNCHANGED << ast, phase, origv, bps, image >>
 
 BackpatchStep ==
   /\ phase = "backpatch"
   /\ IF pos > Len(air) THEN
         /\ phase' = "emit" /\ pos' = 1 /\ steps' = steps + 1
-        /\ UNCHANGED << ast, line, symtab, origv, bps, air, image >>
+        /\ UNCHANGED << ast, line, symtab, origv, bps, air, image, pendingLab >>
      ELSE
        LET w == air[pos] IN
        IF w.ref.filled THEN
           /\ pos' = pos + 1 /\ steps' = steps + 1
-          /\ UNCHANGED << ast, phase, line, symtab, origv, bps, air, image >>
+          /\ UNCHANGED << ast, phase, line, symtab, origv, bps, air, image, pendingLab >>
        ELSE IF w.ref.name \in DOMAIN symtab THEN
           /\ air' = [air EXCEPT ![pos].ref = Ref(symtab[w.ref.name])]
           /\ pos' = pos + 1 /\ steps' = steps + 1
-          /\ UNCHANGED << ast, phase, line, symtab, origv, bps, image >>
+          /\ UNCHANGED << ast, phase, line, symtab, origv, bps, image, pendingLab >>
        ELSE Fail
 
 (* the code's bit_offs: difference modulo 2^16 read as signed, minus one *)
@@ -153,12 +159,12 @@ EmitStep ==
   /\ phase = "emit"
   /\ IF pos > Len(air) THEN
         /\ phase' = "done" /\ steps' = steps + 1
-        /\ UNCHANGED << ast, pos, line, symtab, origv, bps, air, image >>
+        /\ UNCHANGED << ast, pos, line, symtab, origv, bps, air, image, pendingLab >>
      ELSE
        LET w == air[pos] IN
        IF HasTarget(w.it) /\ ~FitsSigned(CodeOffset(w.ref.v, w.line), OffBits(w.it)) THEN Fail
        ELSE /\ image' = Append(image, EmitWord(w)) /\ pos' = pos + 1 /\ steps' = steps + 1
-            /\ UNCHANGED << ast, phase, line, symtab, origv, bps, air >>
+            /\ UNCHANGED << ast, phase, line, symtab, origv, bps, air, pendingLab >>
 
 Next == ParseStep \/ BackpatchStep \/ EmitStep
 Spec == Init /\ [][Next]_vars
